@@ -12,7 +12,7 @@ FUNCTIONS = [{'q': 'uxarray.grid.connectivity.close_face_nodes',
     'uxarray.grid.connectivity._populate_face_edge_connectivity',
     'uxarray.grid.connectivity._populate_n_nodes_per_face',
     'uxarray.grid.slice._slice_face_indices']
-STANDINS = ["edges"]
+STANDINS = ["edges", "consumers"]
 ASSUMPTIONS = []
 EXPLANATION = "builders under contract + bounded stand-in (catalogue meshes, exhaustive small tables, access orders)"
 LEVEL_TEXT = '_slice_face_indices proved to carry over exactly the edges of the kept faces (a function of their face_edge rows only) and to drop face_edge_connectivity; close_face_nodes (closing pair, padding), _build_n_nodes_per_face and _build_face_edge_connectivity proved for all standard-form tables of any size incl. the memory-layout obligation of np.put on a ravel() view; the _populate_* plumbing proved in dataflow form (face_edge indices number the rows of the edge table the grid REPORTS - derived with its own inverse indices, or source-supplied and left untouched; module-level attribute templates never stored into; nothing else in the dataset touched); _build_edge_node_connectivity (np.unique pipeline) and the row matching for supplied tables are bounded: exhaustive small tables + catalogue meshes, 4 access orders, Euler on closed meshes'
